@@ -75,16 +75,9 @@ func (ex *Exec) callValue(st *State, fr *Frame, fv Val, sig *types.Signature, ar
 	}
 	switch f := fv.(type) {
 	case *ssa.Builtin:
-		// program-point assertions also apply to calls of builtins ("at call append@1: assert ...")
-		if fr.contract != nil && in != nil {
-			for i, cl := range fr.contract.Asserts["call "+site] {
-				if cl.Kind != "assert" {
-					continue
-				}
-				g := ex.loopEnv(st, fr).Bool(cl.E)
-				ex.oblige(st, funcKey(fr.fn), fmt.Sprintf("at(%s):%s", site, labelOr(cl, i)), clauseTags(cl, fr.contract), g, ex.pos(in.Pos()), cl.Src)
-				st.assume(g)
-			}
+		// program-point clauses also apply to calls of builtins ("at call append@1: assert|hint|cases ...")
+		if in != nil {
+			ex.atCallClauses(st, fr, site, site, funcKey(fr.fn), ex.pos(in.Pos()))
 		}
 		res := ex.builtin(st, fr, f, args, in)
 		ex.bind(fr, retTo, res)
@@ -370,70 +363,7 @@ func (ex *Exec) applyContract(st *State, fr *Frame, ct *Contract, fn *ssa.Functi
 			}
 		}
 	}
-	// program-point assertions of the caller's contract: "at call <site>: assert ..."
-	if fr.contract != nil {
-		for i, cl := range fr.contract.Asserts["call "+site] {
-			lev := ex.loopEnv(st, fr)
-			var g T
-			if cl.Kind == "cases" {
-				// "at call X@n: cases label: e1 || e2 || ...": the disjunction is an obligation; the rest of the
-				// path is then verified once per alternative (a proof by cases chosen by the contract author)
-				var alts []Expr
-				var flat func(e Expr)
-				flat = func(e Expr) {
-					if b, ok := e.(*EBinary); ok && b.Op == "||" {
-						flat(b.X)
-						flat(b.Y)
-						return
-					}
-					alts = append(alts, e)
-				}
-				flat(cl.E)
-				key := fmt.Sprintf("%s|%s|%s", fnKey, short, labelOr(cl, i))
-				if st.caseChoice == nil {
-					st.caseChoice = map[string]int{}
-				}
-				choice, chosen := st.caseChoice[key]
-				if !chosen {
-					ex.oblige(st, fnKey, fmt.Sprintf("at(%s):%s", short, labelOr(cl, i)), clauseTags(cl, fr.contract), lev.Bool(cl.E), where, cl.Src)
-					for k := 1; k < len(alts); k++ {
-						o := st.clone()
-						o.caseChoice[key] = k
-						ex.pendingForks = append(ex.pendingForks, o)
-					}
-					st.caseChoice[key] = 0
-					choice = 0
-				}
-				st.assume(lev.Bool(alts[choice]))
-				continue
-			}
-			if cl.Kind == "hint" {
-				ok := func() (ok bool) {
-					defer func() {
-						if r := recover(); r != nil {
-							if _, isSpec := r.(specErr); !isSpec {
-								panic(r)
-							}
-							ok = false
-						}
-					}()
-					g = lev.Bool(cl.E)
-					return true
-				}()
-				if !ok {
-					continue // the hint no longer applies to this body
-				}
-			} else {
-				g = lev.Bool(cl.E)
-			}
-			kindName := "at"
-			if cl.Kind == "hint" {
-				kindName = "hint" // proof aids are named apart: they may vanish after a harmless edit and are not frozen
-			}
-			ex.oblige(st, fnKey, fmt.Sprintf("%s(%s):%s", kindName, short, labelOr(cl, i)), clauseTags(cl, fr.contract), g, where, cl.Src)
-			st.assume(g) // proved above; from here on it is a lemma
-		}
-	}
+	ex.atCallClauses(st, fr, site, short, fnKey, where)
 	for i, r := range ct.Requires {
 		g := ev.Bool(r.E)
 		tags := r.Tags
@@ -791,6 +721,10 @@ func (ex *Exec) checkCalleeFrame(st *State, fr *Frame, ct *Contract, ev *Eval, i
 		goal := False
 		if t.ref != nil && t.heap[0] != 'G' && !strings.HasPrefix(t.heap, "gh_") {
 			goal = App(">=", SBool, *t.ref, top.entry.alloc)
+			if strings.HasPrefix(t.heap, "A_") {
+				// the backing array of a nil slice has no elements: nothing can be written there
+				goal = Or(goal, Eq(*t.ref, Nil))
+			}
 		}
 		for _, m := range mine {
 			if m.heap != t.heap {
@@ -1078,9 +1012,16 @@ func (ex *Exec) appendSlice(st *State, fr *Frame, s T, e T, et types.Type, in ss
 	base := ex.define(st, "appbase", bvBin("bvadd", resOff, SlLen(s)))
 	inNew := And(bvCmp("bvsle", base, j), bvCmp("bvslt", j, bvBin("bvadd", base, n)))
 	inOld := And(bvCmp("bvsle", resOff, j), bvCmp("bvslt", j, base))
-	oldVal := Ite(fits, Select(oldArr, j), Ite(inOld, Select(oldArr, bvBin("bvadd", SlOff(s), bvBin("bvsub", j, resOff))), c.ZeroOfSort(es)))
-	body := Eq(Select(na, j), Ite(inNew, Select(srcArr, bvBin("bvadd", SlOff(e), bvBin("bvsub", j, base))), oldVal))
-	st.cmds = append(st.cmds, fmt.Sprintf("(assert (forall ((%s (_ BitVec 64))) (! %s :pattern ((select %s %s)))))", j.S, body.S, na.S, j.S))
+	// the contents of the result array, as four guarded equations (one formula with nested if-then-else is much
+	// harder for the solvers than the same facts stated separately)
+	emit := func(guard T, val T) {
+		body := Implies(guard, Eq(Select(na, j), val))
+		st.cmds = append(st.cmds, fmt.Sprintf("(assert (forall ((%s (_ BitVec 64))) (! %s :pattern ((select %s %s)))))", j.S, body.S, na.S, j.S))
+	}
+	emit(inNew, Select(srcArr, bvBin("bvadd", SlOff(e), bvBin("bvsub", j, base))))
+	emit(And(Not(inNew), fits), Select(oldArr, j))
+	emit(And(Not(inNew), Not(fits), inOld), Select(oldArr, bvBin("bvadd", SlOff(s), bvBin("bvsub", j, resOff))))
+	emit(And(Not(inNew), Not(fits), Not(inOld)), c.ZeroOfSort(es))
 	// in-place append writes into the caller-visible array: frame check only when it fits
 	if in != nil {
 		top := st.frames[0]
@@ -1260,4 +1201,72 @@ func (ex *Exec) frameUnchanged(targets []modTarget, now HeapView, before HeapVie
 		return True
 	}
 	return And(cs...)
+}
+
+// atCallClauses processes the program-point clauses of the function being verified for one call site
+// ("at call <site>: assert|hint|cases ..."), before the callee's preconditions are checked.
+func (ex *Exec) atCallClauses(st *State, fr *Frame, site, short, fnKey, where string) {
+	if fr.contract != nil {
+		for i, cl := range fr.contract.Asserts["call "+site] {
+			lev := ex.loopEnv(st, fr)
+			var g T
+			if cl.Kind == "cases" {
+				// "at call X@n: cases label: e1 || e2 || ...": the disjunction is an obligation; the rest of the
+				// path is then verified once per alternative (a proof by cases chosen by the contract author)
+				var alts []Expr
+				var flat func(e Expr)
+				flat = func(e Expr) {
+					if b, ok := e.(*EBinary); ok && b.Op == "||" {
+						flat(b.X)
+						flat(b.Y)
+						return
+					}
+					alts = append(alts, e)
+				}
+				flat(cl.E)
+				key := fmt.Sprintf("%s|%s|%s", fnKey, short, labelOr(cl, i))
+				if st.caseChoice == nil {
+					st.caseChoice = map[string]int{}
+				}
+				choice, chosen := st.caseChoice[key]
+				if !chosen {
+					ex.oblige(st, fnKey, fmt.Sprintf("at(%s):%s", short, labelOr(cl, i)), clauseTags(cl, fr.contract), lev.Bool(cl.E), where, cl.Src)
+					for k := 1; k < len(alts); k++ {
+						o := st.clone()
+						o.caseChoice[key] = k
+						ex.pendingForks = append(ex.pendingForks, o)
+					}
+					st.caseChoice[key] = 0
+					choice = 0
+				}
+				st.assume(lev.Bool(alts[choice]))
+				continue
+			}
+			if cl.Kind == "hint" {
+				ok := func() (ok bool) {
+					defer func() {
+						if r := recover(); r != nil {
+							if _, isSpec := r.(specErr); !isSpec {
+								panic(r)
+							}
+							ok = false
+						}
+					}()
+					g = lev.Bool(cl.E)
+					return true
+				}()
+				if !ok {
+					continue // the hint no longer applies to this body
+				}
+			} else {
+				g = lev.Bool(cl.E)
+			}
+			kindName := "at"
+			if cl.Kind == "hint" {
+				kindName = "hint" // proof aids are named apart: they may vanish after a harmless edit and are not frozen
+			}
+			ex.oblige(st, fnKey, fmt.Sprintf("%s(%s):%s", kindName, short, labelOr(cl, i)), clauseTags(cl, fr.contract), g, where, cl.Src)
+			st.assume(g) // proved above; from here on it is a lemma
+		}
+	}
 }
